@@ -4536,9 +4536,9 @@ XPath::predicates(
                     m_expression.getNumberLiteral(m_expression.getOpCodeMapValue(predOpPos + 2));
 
                 // If the index is out of range, or not an integer, just clear subQueryResults...
-                // (Compare as doubles first:  converting a value that the
-                // integer type cannot hold is undefined behavior.)
-                if (theIndex <= 0.0 ||
+                // (Compare as doubles first:  converting NaN, or a value that
+                // the integer type cannot hold, is undefined behavior.)
+                if (!(theIndex > 0.0) ||
                     theIndex > double(theLength) ||
                     double(NodeRefListBase::size_type(theIndex)) != theIndex)
                 {
